@@ -143,8 +143,8 @@ func (w *World) newFunctions(base []fnEntry) map[*types.Func]*Func {
 		if f.Decl == nil || f.Obj == nil || f.Body == nil {
 			continue
 		}
-		if strings.HasPrefix(f.Pkg.PkgPath, modPath+"/internal/parser") || strings.HasSuffix(f.Pkg.PkgPath, "/internal/testutils") {
-			continue
+		if strings.HasSuffix(f.Pkg.PkgPath, "/internal/testutils") || strings.HasPrefix(filepath.Base(w.Fset.File(f.Decl.Pos()).Name()), "yarnspinner") {
+			continue // test helpers; generated recognisers
 		}
 		e := fnEntry{Pkg: shortPkg(f.Pkg.PkgPath), Recv: recvTypeName(f.Decl), Name: f.Decl.Name.Name, Sig: sigString(f.Sig())}
 		if baseKeys[e.key()] || e.Name == "init" || e.Name == "main" {
